@@ -1,5 +1,6 @@
 import WfModel.Runner
 import WfModel.Context
+import WfModel.Serial
 import Driver.Util
 /-! Line protocol for the engine reducer model (token streams, see harness/enc.py). -/
 open Engine
@@ -294,6 +295,10 @@ def step (d : DState) (line : String) : DState × String :=
       ({ d with st := r.1 }, sResult d.cfg r)
     | _ => (d, "bad-op")
   | ["show"] => (d, sState d.cfg d.st)
+  | ["serde"] =>
+    -- to_serialized -> JSON -> from_serialized on the current state (the state advances)
+    let s := roundtrip d.cfg d.st
+    ({ d with st := s }, sState d.cfg s)
   -- runner LTS
   | "rinit" :: ts =>
     match (do let now ← int; let e ← opt ev; let t ← optNat; pure (now, e, t)) ts with
